@@ -47,6 +47,8 @@ type Contract struct {
 	Decr     *Clause
 	Loops    map[int]*LoopSpec
 	Impl     string   // implements <iface method key>
+	ImplKey  string   // resolved generic specification key
+	NImportedReq int
 	Tags     []string // tags for function-level obligations (safe, frame); default: union of clause tags
 	Params   []string // for externs/ifaces: explicit parameter names
 	Extra    map[string][]*Sx
